@@ -338,25 +338,27 @@ Definition map_img {A B C} (f : A -> B -> C) (a : list (list A)) (b : list (list
       (combine a b).
 
 Inductive wres : Type :=
-| WOut (o : list (list Z))     (* the returned array *)
+| WOut (ranked : bool) (o : list (list Z))   (* the returned array, and whether rank_order was applied *)
 | WDecline                      (* more than 255 distinct values: rank_order's decimation is not modelled *)
 | WIndexError.                  (* translation[output] with an output beyond the table *)
 
-(* intlike = np.issubdtype(data.dtype, int), observed by the harness *)
+(* intlike = np.issubdtype(data.dtype, int), observed by the harness.  The direct path is taken
+   when the MASKED pixels are integers in 0..255 (np.min(data[mask]) < 0 or np.max(data[mask]) > 255
+   — /repo commit 229a88d; before it the test looked at the whole array). *)
 Definition wrapper (v : variant) (intlike : bool) (data : list (list Z)) (mask : list (list bool))
            (radius percent : Z) : wres :=
-  if forallb (forallb negb) mask then WOut data else
-  let all := concat data in
-  let pass := intlike && forallb (fun x => (0 <=? x) && (x <=? 255)) all in
+  if forallb (forallb negb) mask then WOut false data else
+  let mv := masked_vals data mask in
+  let pass := intlike && forallb (fun x => (0 <=? x) && (x <=? 255)) mv in
   if pass then
-    WOut (kernel v (map_img (fun d (m : bool) => if m then d else 0) data mask) mask radius percent)
+    WOut false (kernel v (map_img (fun d (m : bool) => if m then d else 0) data mask) mask radius percent)
   else
-    let u := sort_u (masked_vals data mask) in
+    let u := sort_u mv in
     if (255 <? length u)%nat then WDecline else
     let input := map_img (fun d (m : bool) => if m then Z.of_nat (index_of d u) else 0) data mask in
     let o8 := kernel v input mask radius percent in
     if forallb (forallb (fun x => x <? Z.of_nat (length u))) o8
-    then WOut (map (map (fun x => nth (Z.to_nat x) u 0)) o8)
+    then WOut true (map (map (fun x => nth (Z.to_nat x) u 0)) o8)
     else WIndexError.
 
 (* ------------------------------------------------------------------ wire entries *)
@@ -367,11 +369,11 @@ Definition as_variant (x : sx) : variant := if as_Z x =? 0 then AsIs else Fixed.
 Definition entry_kernel (x : sx) : sx :=
   of_Zss (kernel (as_variant (arg 0 x)) (as_Zss (arg 1 x)) (as_boolss (arg 2 x)) (as_Z (arg 3 x)) (as_Z (arg 4 x))).
 
-(* (variant intlike data mask radius percent) -> (0 out) | (1) declined | (2) IndexError *)
+(* (variant intlike data mask radius percent) -> (0 out ranked) | (1) declined | (2) IndexError *)
 Definition entry_wrapper (x : sx) : sx :=
   match wrapper (as_variant (arg 0 x)) (as_bool (arg 1 x)) (as_Zss (arg 2 x)) (as_boolss (arg 3 x))
                 (as_Z (arg 4 x)) (as_Z (arg 5 x)) with
-  | WOut o => L [I 0; of_Zss o]
+  | WOut b o => L [I 0; of_Zss o; of_bool b]
   | WDecline => L [I 1]
   | WIndexError => L [I 2]
   end.
